@@ -381,8 +381,11 @@ def build_fn(unit, file_spec, item_spec, opts, sections, log, probes=False):
             c = {"id": "probe:" + what, "kind": "probe", "text": what}
             info.probes.append(c)
             edits.append((pos, 9, [("", None), ("assert(false); // VP-PROBE %s" % what, c)]))
-        tp = _tail_pos(masked, ob)
-        if tp > ob + 1:
+        want = ("requires" in secd) or any(re.match(r"loop\s+\d+$", k) for k in secd) or ("probe" in opts)
+        tp = _tail_pos(masked, ob) if want else -1
+        if not want:
+            pass
+        elif tp > ob + 1:
             ls = text.rfind("\n", 0, tp) + 1
             if text[ls:tp].strip() == "":
                 tp = ls
@@ -392,6 +395,8 @@ def build_fn(unit, file_spec, item_spec, opts, sections, log, probes=False):
         else:
             probe(ob + 1, "entry (precondition and axioms in scope are satisfiable)")
         for key in secd:
+            if "noisolation" in opts:
+                break       # one query for the whole body: a failing loop probe would make the exit probe vacuous
             m = re.match(r"loop\s+(\d+)$", key)
             if m and "invariant" in "\n".join(secd[key]):
                 probe(loops[int(m.group(1)) - 1] + 1, "loop%s.invariant" % m.group(1))
@@ -512,4 +517,21 @@ def assemble(unit, template_text=None, probes=False):
                     info.tags = val.split()
             infos.append(info)
     out.append(template_text[pos:])
-    return "".join(out), infos, log.counts
+    text_all = "".join(out)
+    if probes:
+        k = text_all.rfind("} // verus!")
+        if k >= 0:
+            uinfo = FnInfo()
+            uinfo.unit = unit
+            uinfo.name = "<unit-level axioms>"
+            uinfo.file = "units/%s.rs" % unit
+            uinfo.repo_line = 0
+            uinfo.tags = []
+            add = "pub proof fn vp_unit_probe() {\nassert(false); // VP-PROBE unit\n}\n"
+            ln = text_all.count("\n", 0, k) + 1
+            uinfo.line_start = ln
+            uinfo.line_end = ln + 2
+            uinfo.probes = [{"id": "probe:unit", "kind": "probe", "text": "unit-level axioms and broadcast lemmas are consistent", "lines": [ln + 1]}]
+            text_all = text_all[:k] + add + text_all[k:]
+            infos.append(uinfo)
+    return text_all, infos, log.counts
